@@ -374,6 +374,15 @@ func genE2E(c *ctx) {
 			vals.list = append(vals.list, T("struct", T("int", I(7))))
 		}
 		c.emit(T("e2e", tiny, A(codec), I(1<<20), vals, L()))
+		// record counts per block at the steps of the varint encoding of the count (63, 64, 65, 127, 128, 129): one block each,
+		// distinct values so that a lost or repeated record shows
+		for _, nrec := range []int{63, 64, 65, 127, 128, 129} {
+			vs := L()
+			for k := 0; k < nrec; k++ {
+				vs.list = append(vs.list, T("struct", T("int", I(int64(k*k-nrec)))))
+			}
+			c.emit(T("e2e", tiny, A(codec), I(1<<20), vs, L()))
+		}
 	}
 }
 
